@@ -147,6 +147,99 @@ theorem h1_rearm_every_round (s : St) (viaContinue : Bool) (hp : s.phase = .acce
     s'.phase = .head ∧ s'.limit = s.L ∧ s'.pulled = 0 ∧ s'.headSize = 0 ∧ s'.num1xx = 0 := by
   simp [cstep, hp, rearm]
 
+/-! #### the canonical schedule: the size rule of the response level is what the event level does -/
+
+structure FInv (L B S : Nat) (s : St) : Prop where
+  hL : s.L = L
+  hB : s.B = B
+  ph : s.phase = .head
+  hb : s.headSize + s.buffered = s.pulled
+  lim : s.pulled + s.limit = L
+  ps : s.pulled ≤ S
+  bB : s.buffered ≤ B
+
+theorem feed_spec (L B S : Nat) (hB1 : 1 ≤ B) : ∀ (fuel : Nat) (s : St), FInv L B S s →
+    2 * (S - s.headSize) + (if s.buffered = 0 then 1 else 0) < fuel →
+    ((feed fuel s S).phase = .accepted ↔ S ≤ L) ∧
+    (L < S → (feed fuel s S).phase = .exhausted ∧ (feed fuel s S).pulled = L) := by
+  intro fuel
+  induction fuel with
+  | zero => intro s _ h; omega
+  | succ n ih =>
+    intro s inv hf
+    obtain ⟨hL, hB, ph, hb, lim, ps, bB⟩ := inv
+    unfold feed
+    simp only [ph, bne_self_eq_false, Bool.false_eq_true, if_false]
+    split
+    · next hdone =>
+      -- the whole head is parsed: the blank line
+      have hacc : (step s (.endHead false)).phase = .accepted := by simp [step, ph]
+      refine ⟨⟨fun _ => by omega, fun _ => hacc⟩, fun hgt => by omega⟩
+    · next hmore =>
+      split
+      · next hb0 =>
+        -- the buffer is empty: one socket read
+        by_cases hl0 : s.limit = 0
+        · have hex : (step s (.net s.B (S - s.headSize))) = { s with phase := .exhausted } := by
+            simp [step, ph, readN, hl0]
+          have hfe : ∀ m, feed m { s with phase := .exhausted } S = { s with phase := .exhausted } := by
+            intro m; cases m <;> simp [feed]
+          rw [hex, hfe]
+          refine ⟨⟨fun h => by simp at h, fun h => by omega⟩, fun _ => ⟨rfl, by simp only; omega⟩⟩
+        · have hst : step s (.net s.B (S - s.headSize)) =
+              { s with limit := s.limit - min (min s.B (s.B - s.buffered)) (min s.limit (S - s.headSize)),
+                       pulled := s.pulled + min (min s.B (s.B - s.buffered)) (min s.limit (S - s.headSize)),
+                       total := s.total + min (min s.B (s.B - s.buffered)) (min s.limit (S - s.headSize)),
+                       buffered := s.buffered + min (min s.B (s.B - s.buffered)) (min s.limit (S - s.headSize)) } := by
+            simp [step, ph, readN, hl0]
+          rw [hst]
+          apply ih
+          · refine ⟨hL, hB, ph, ?_, ?_, ?_, ?_⟩ <;> simp only <;> omega
+          · simp only
+            have : s.buffered + min (min s.B (s.B - s.buffered)) (min s.limit (S - s.headSize)) ≠ 0 := by omega
+            simp only [this, if_false]
+            simp only [hb0, if_true] at hf
+            omega
+      · next hbn =>
+        -- the parser takes what is buffered
+        have hst : step s (.parse (S - s.headSize)) =
+            { s with buffered := s.buffered - min (S - s.headSize) s.buffered,
+                     headSize := s.headSize + min (S - s.headSize) s.buffered } := by
+          simp [step, ph]
+        rw [hst]
+        apply ih
+        · refine ⟨hL, hB, ph, ?_, ?_, ?_, ?_⟩ <;> simp only <;> omega
+        · simp only
+          simp only [hbn, if_false] at hf
+          split <;> omega
+
+/-- **h1_size_rule_refines**: the size rule of the response level IS what the event level does on
+the canonical schedule — a head of `S` bytes delivered to a freshly armed connection with an empty
+buffer (any buffer size ≥ 1, however many socket reads it takes) is accepted if and only if
+`S ≤ MaxResponseHeaderBytes`; a longer one ends in the "headers exceeded" error after exactly
+`MaxResponseHeaderBytes` bytes were taken from the socket (the number lane `h1connseq` observes). This
+holds on a fresh connection and after every `next` of a kept-alive one whose buffer is empty. -/
+theorem h1_size_rule_refines (L B S : Nat) (hB : 1 ≤ B) (s : St) (hs : s.phase = .accepted)
+    (hL : s.L = L) (hB' : s.B = B) (he : s.buffered = 0) (v : Bool) :
+    let a := cstep s (.next v)
+    ((feed (2 * S + 2) a S).phase = .accepted ↔ S ≤ L) ∧
+    (L < S → (feed (2 * S + 2) a S).phase = .exhausted ∧ (feed (2 * S + 2) a S).pulled = L) := by
+  have ha : cstep s (.next v) = rearm s := by simp [cstep, hs]
+  simp only [ha]
+  apply feed_spec L B S hB
+  · refine ⟨?_, ?_, ?_, ?_, ?_, ?_, ?_⟩ <;> simp [rearm, hL, hB', he]
+  · simp [rearm, he]
+
+theorem h1_size_rule_fresh (L B S : Nat) (hB : 1 ≤ B) :
+    ((feed (2 * S + 2) (init L B 0) S).phase = .accepted ↔ S ≤ L) ∧
+    (L < S → (feed (2 * S + 2) (init L B 0) S).phase = .exhausted ∧ (feed (2 * S + 2) (init L B 0) S).pulled = L) := by
+  apply feed_spec L B S hB
+  · refine ⟨?_, ?_, ?_, ?_, ?_, ?_, ?_⟩ <;> simp [init]
+  · simp [init]
+
+example : (feed 22 (init 10 4 0) 10).phase = .accepted := by decide
+example : (feed 24 (init 10 4 0) 11).phase = .exhausted ∧ (feed 24 (init 10 4 0) 11).pulled = 10 := by decide
+
 theorem verdictGo_ok (L final : Nat) : ∀ (n : Nat) (hs : List Nat), n ≤ max1xx →
     verdictGo L final n hs = .ok → final ≤ L ∧ (∀ h ∈ hs, h ≤ L) ∧ n + hs.length ≤ max1xx
   | n, [], hn0, h => by
